@@ -120,11 +120,7 @@ def defaultChain (d : D) (spec : Bool) (res : String) (batch : Nat) (args : List
     else match findN d.st.nodes res with
       | some n => n.conc
       | none => 0
-  let blocked := match d.iso.lookup res with
-    | some T => decide (conc.toNat + batch > T)
-    | none => false
-  let panics := d.hot.contains res && (match args.head? with | some a => a.startsWith "u:" | none => false)
-  { pre := [.node], rules := [if blocked then .block else if panics then .panic else .pass], std := true, recs := [] }
+  { pre := [.node], rules := [defaultRule (d.iso.lookup res) (d.hot.contains res) conc batch args], std := true, recs := [] }
 
 def apply (d : D) (spec : Bool) (op : Op) : D :=
   let x : TOp := (d.now, op)
